@@ -56,6 +56,8 @@ fn stats_json(s: &Stats) -> J {
         .set("futex_wakes", J::u(s.futex_wakes))
         .set("futex_timeouts", J::u(s.futex_timeouts))
         .set("sleeps_simulated", J::u(s.sleeps_simulated))
+        .set("fairness_switches", J::u(s.fairness_switches))
+        .set("spin_yields", J::u(s.spin_yields))
 }
 
 fn fnv_u32s(d: &[u32]) -> u64 {
